@@ -362,6 +362,17 @@ def rule_B3(ctx: Ctx) -> None:
         slot["k_is_first_match"] = first_ok
         if er_ok is not None:
             er_ok = er_ok and first_ok
+        # the erase branch is taken iff a match was found: `k is not None` (k == 0 is a match: truthiness would skip it)
+        par = X.parents_map(wl)
+        g_if = par.get(erase[0])
+        guard_ok = isinstance(g_if, ast.If) and kname is not None and X.U(g_if.test) in (f"{kname} is not None", f"not {kname} is None", f"{kname} != None") \
+            and erase[0] in g_if.body
+        guard_neg = isinstance(g_if, ast.If) and kname is not None and X.U(g_if.test) in (f"{kname} is None",) and erase[0] in g_if.orelse
+        slot["erase_guard"] = X.U(g_if.test) if isinstance(g_if, ast.If) else None
+        kinit = [d for d in X.assignments_to(wl, kname)] if kname else []
+        slot["k_initial_none"] = any(isinstance(d, ast.Constant) and d.value is None for d in kinit)
+        if er_ok is not None:
+            er_ok = er_ok and (guard_ok or guard_neg) and slot["k_initial_none"]
         # after erasing, current = path[-1]
         cur_reset = any(isinstance(s, ast.Assign) and X.U(s.targets[0]) == "current" and X.U(s.value) == "path[-1]" for s in ast.walk(wl))
         slot["current_reset_to_path_end"] = cur_reset
